@@ -9,7 +9,9 @@
 
   * the reader `harness/cpyx.py` (line-structured splitting, `cdef`/cast rewriting, Python's
     `ast` on each function body; symbolic execution of `apply` once per spelling; explicit
-    control-flow paths only — exceptions raised inside callees, `op`-correlations between
+    control-flow paths only — exceptions raised inside callees (except: the first statement of a
+    `try … finally` without handlers raises, the `finally` runs, the exception propagates),
+    `op`-correlations between
     successive `if` chains and loops beyond two iterations are not modelled; references kept in
     C arrays / dicts / hash tables are followed through a ghost count per container, where the
     loop "dereference every element once" is recognised by its shape and which slots of an array
